@@ -1365,6 +1365,53 @@ def _last_index_locals(program) -> List[str]:
     return log
 
 
+def _partition_unpack(program) -> List[str]:
+    """`head, _, tail = s.rpartition('/')`  is  `head = '/'.join(s.split('/')[:-1]); tail = s.split('/')[-1]`  (for every str s:
+    without a separator rpartition gives ('', '', s) and split gives [s]);  `head, _, tail = s.partition('/')`  is
+    `head = s.split('/')[0]; tail = '/'.join(s.split('/')[1:])`.  The separator must be a string literal and the three
+    targets plain names; the middle element becomes `'/' if '/' in s else ''` when it is used under a real name."""
+    log: List[str] = []
+    for fi in program.functions.values():
+        fn = fi.node
+        if not isinstance(fn, (ast.FunctionDef, ast.AsyncFunctionDef)):
+            continue
+        n = 0
+        for holder in _walk_local(fn):
+            for fld in ("body", "orelse", "finalbody"):
+                stmts = getattr(holder, fld, None)
+                if not isinstance(stmts, list):
+                    continue
+                out = []
+                for st in stmts:
+                    tg = st.targets[0] if isinstance(st, ast.Assign) and len(st.targets) == 1 else None
+                    v = getattr(st, "value", None)
+                    if (isinstance(tg, ast.Tuple) and len(tg.elts) == 3 and all(isinstance(e, ast.Name) for e in tg.elts) and isinstance(v, ast.Call)
+                            and isinstance(v.func, ast.Attribute) and v.func.attr in ("partition", "rpartition") and len(v.args) == 1 and not v.keywords
+                            and isinstance(v.args[0], ast.Constant) and isinstance(v.args[0].value, str) and v.args[0].value):
+                        sep, recv = v.args[0], v.func.value
+                        sp = lambda: ast.Call(func=ast.Attribute(value=copy.deepcopy(recv), attr="split", ctx=ast.Load()), args=[copy.deepcopy(sep)], keywords=[])
+                        jn = lambda sl: ast.Call(func=ast.Attribute(value=copy.deepcopy(sep), attr="join", ctx=ast.Load()), args=[ast.Subscript(value=sp(), slice=sl, ctx=ast.Load())], keywords=[])
+                        m1 = ast.UnaryOp(op=ast.USub(), operand=ast.Constant(value=1))
+                        if v.func.attr == "rpartition":
+                            hv = jn(ast.Slice(lower=None, upper=m1, step=None))
+                            tv = ast.Subscript(value=sp(), slice=m1, ctx=ast.Load())
+                        else:
+                            hv = ast.Subscript(value=sp(), slice=ast.Constant(value=0), ctx=ast.Load())
+                            tv = jn(ast.Slice(lower=ast.Constant(value=1), upper=None, step=None))
+                        mv = ast.IfExp(test=ast.Compare(left=copy.deepcopy(sep), ops=[ast.In()], comparators=[copy.deepcopy(recv)]), body=copy.deepcopy(sep), orelse=ast.Constant(value=""))
+                        for name, val in zip(tg.elts, (hv, mv, tv)):
+                            if name.id.startswith("_") and val is mv:
+                                continue
+                            out.append(ast.fix_missing_locations(ast.copy_location(ast.Assign(targets=[ast.Name(id=name.id, ctx=ast.Store())], value=val), st)))
+                        n += 1
+                    else:
+                        out.append(st)
+                stmts[:] = out
+        if n:
+            log.append(f"{fi.qual}: {n} `a, _, b = s.(r)partition(sep)` unpacking(s) read as split / join expressions")
+    return log
+
+
 def _chain_fresh_stores(program) -> List[str]:
     """`v = {}` directly followed by `x[k] = v` (or `x.a = v`) is `v = x[k] = {}`: v names the very object stored there."""
     log: List[str] = []
@@ -1524,7 +1571,7 @@ def apply(program) -> List[str]:
         inl.drop_fully_inlined()
     sr = _scalar_replacement(program, known) if any(k.startswith("@") for k in known) else []
     sm = _simplify_inlined(program, inl.touched) if inl.touched else []
-    li = _last_index_locals(program) + _bound_method_aliases(program) + _chain_fresh_stores(program) + _if_else_assign_as_ifexp(program)
+    li = _partition_unpack(program) + _last_index_locals(program) + _bound_method_aliases(program) + _chain_fresh_stores(program) + _if_else_assign_as_ifexp(program)
     if inl.touched:
         li += _const_getattr(program)
     return log + inl.log + sr + sm + li
